@@ -86,6 +86,10 @@ CONT = [
     'script = echo one \\\n            two',
     'inherit = A, \\\n            B',
     'script = echo "x" \\\n  # not a comment, part of the value',
+    # (known finding) a backslash followed by trailing blanks, after a "#"
+    'script = echo foo # c \\  \n        pre-script = echo kept',
+    # (known finding) ... or at the end of a line that is itself continued
+    'script = echo a \\\n            b \\   \n        pre-script = echo kept',
 ]
 MULTI = [
     'post-script = echo plain',
@@ -166,14 +170,14 @@ def idempotent(ji: int, ii: int, ci: int, mi: int, ki: int, ri: int,
                di: int) -> bool:
     """
     pre: sl(ji=ji)
-    pre: 0 <= ji < 5 and 0 <= ii < 4 and 0 <= ci < 4 and 0 <= mi < 3
+    pre: 0 <= ji < 5 and 0 <= ii < 4 and 0 <= ci < 6 and 0 <= mi < 3
     pre: 0 <= ki < 3 and 0 <= ri < 2 and 0 <= di < 2
     pre: SLICE.get('full', True) or ci in (0, 3)
     pre: not kf('C36.idempotent', ji=ji, ii=ii, ci=ci, mi=mi, ki=ki)
     post: _
     """
     ji, ii, ci, mi = (fork_int(ji, 0, 4), fork_int(ii, 0, 3),
-                      fork_int(ci, 0, 3), fork_int(mi, 0, 2))
+                      fork_int(ci, 0, 5), fork_int(mi, 0, 2))
     ki, ri, di = fork_int(ki, 0, 2), fork_int(ri, 0, 1), fork_int(di, 0, 1)
     with concrete():
         return _run(ji, ii, ci, mi, ki, ri, di)
